@@ -324,6 +324,20 @@ def oracle_public(ctx, count):
             A = sp.csr_array(sp.diags_array(u) @ A @ sp.diags_array(u.conj()))
         A = sp.csr_array(A.astype(dt))
         D = A.toarray()
+        unsorted = it % 2 == 1
+        if unsorted:
+            # same matrix, column indices of every row stored in a shuffled order (valid CSR; nothing in the property
+            # presupposes sorted storage)
+            A.sort_indices()
+            ind, dat = A.indices.copy(), A.data.copy()
+            for i in range(n):
+                lo, hi = A.indptr[i], A.indptr[i + 1]
+                perm = list(range(lo, hi))
+                rng.shuffle(perm)
+                ind[lo:hi], dat[lo:hi] = A.indices[perm], A.data[perm]
+            A = sp.csr_array((dat, ind, A.indptr.copy()), shape=A.shape)
+            A.has_sorted_indices = False
+            assert np.array_equal(A.toarray(), D)
         x = np.array([rng.uniform(-1, 1) for _ in range(n)]).astype(dt)
         b = np.array([rng.uniform(-1, 1) for _ in range(n)]).astype(dt)
         if cplx:
@@ -332,6 +346,8 @@ def oracle_public(ctx, count):
             x = np.zeros(n, dtype=dt)        # the zero initial guess (every coarse-level pre-smoothing starts there)
         sweep = rng.choice(['forward', 'backward', 'symmetric'])
         its = rng.choice([0, 1, 1, 2, 3])
+        if it % 5 == 3:
+            its = 2 + (it // 5) % 2          # zero guess AND several iterations (first-iteration shortcuts must not persist)
         om = rng.choice([1.0, 0.5, 1.5, 4.0 / 3.0])
         bs = rng.choice([d for d in (1, 2, 3) if n % d == 0])
         nb = n // bs
@@ -341,7 +357,7 @@ def oracle_public(ctx, count):
         Fpts = np.array([i for i in range(nb) if i not in set(Cpts.tolist())], dtype=I32)
         base = dict(dense=D.real.tolist() if not cplx else [[[v.real, v.imag] for v in r] for r in D],
                     dtype=np.dtype(dt).name, x=[complex(v) for v in x], b=[complex(v) for v in b],
-                    sweep=sweep, iterations=its, omega=om, blocksize=bs, format=fmt)
+                    sweep=sweep, iterations=its, omega=om, blocksize=bs, format=fmt, unsorted_indices=unsorted)
 
         def rep(f, n_it):
             y = x.copy()
@@ -423,10 +439,16 @@ def oracle_public(ctx, count):
                     h = c * r + D @ h
                 return y + h
             tests['polynomial'] = (lambda y: R.polynomial(A, y, b, coef, iterations=its), rep(ref_poly, its))
+        A_master = A.copy()
         for name, (call, want) in tests.items():
             case = dict(base, method=name)
             ctx.mark(case)
             y = x.copy()
+            # every call sees the matrix as generated (an earlier call may have sorted its indices in place)
+            A = A_master.copy()
+            if unsorted:
+                A.has_sorted_indices = False
+            Afmt = A if fmt == 'csr' else sp.bsr_array(A, blocksize=(bs, bs))
             a_before = (Afmt.toarray().tobytes(), b.tobytes())   # numerical content (in-place index sorting is allowed)
             try:
                 call(y)
@@ -437,6 +459,8 @@ def oracle_public(ctx, count):
                      its > 0, sample=case if name == 'sor' and len(ctx.samples) < 3 else None)
             ctx.count('oracle:' + name)
             ctx.count('dtype:' + np.dtype(dt).name)
+            if unsorted and its > 0:
+                ctx.count('oracle-unsorted-storage:' + name)
             if (Afmt.toarray().tobytes(), b.tobytes()) != a_before:
                 ctx.fail('relaxation.%s/inputs-modified' % name, 'A or b changed', case)
             if not close(y, want, tol):
@@ -478,7 +502,7 @@ def _seq(y, fs):
 
 
 def run(ctx):
-    nq, nf, no = (25, 25, 40) if not ctx.thorough else (250, 250, 400)
+    nq, nf, no = (40, 40, 100) if not ctx.thorough else (250, 250, 400)
     if ctx.search:
         nq, nf, no = 150, 150, 300
     dy = [-2, -1, -0.5, 0.5, 1, 2, 0.25, 4]
